@@ -203,7 +203,9 @@ def campaign(c, focus, pid):
     for k in range(nseq):
         ops = gen_ops(r, r.choice([50, 120, 400]), focus if k % 5 else "big")      # every fifth sequence grows the arena table past 8, 16, 32 entries
         inp = "\n".join(o.split("#")[0].strip() for o in ops) + "\n"
-        rc, so, se = V.run([exe], inp=inp, timeout=120)
+        # every third sequence: later arenas below older ones (the library sorts its arenas by address and restores / re-initialises them by identity)
+        aenv = {"VERIF_ARENA_ORDER": ["desc", "rand,%d" % (c.seed * 131 + k)][(k // 3) % 2]} if k % 3 == 2 else None
+        rc, so, se = V.run([exe], inp=inp, timeout=120, env=aenv)
         out = [l for l in so.split("\n") if l]
         if rc != 0 or len(out) != len(ops) + 1:
             san = "Sanitizer" in se or "runtime error" in se
